@@ -22,7 +22,9 @@ def write(mod, ctx, tier, seed, wall, violations, extra_cov=None):
         'assumptions': list(getattr(mod, 'ASSUMPTIONS', [])),
         'wall_s': round(wall, 2), 'violations': violations,
     }
-    d = os.path.join(env.VERIF, 'evidence')
+    # runs against a scratch copy (VERIF_REPO: mutant / seeded-change validation) must not
+    # overwrite the evidence of the unchanged tree
+    d = os.path.join(env.VERIF, 'evidence' if env.REPO == '/repo' else 'evidence-scratch')
     os.makedirs(d, exist_ok=True)
     p = os.path.join(d, mod.ID + '.json')
     tmp = p + '.tmp%d' % os.getpid()
